@@ -450,8 +450,11 @@ def cases(draw, narrow: bool):
             "read": st.just("full"), "end": st.just("release"), "settle": st.integers(0, 2),
             "expect": st.just(False), "head": st.just(False), "peer": st.just(clean),
         })
-        ops = draw(st.lists(kreq, min_size=2, max_size=6))
-        return {"ops": [dict(o, peer=dict(o["peer"])) for o in ops], "s2c": []}
+        # ... and the clock moves, so that the connector's periodic sweep of idle connections (every keepalive_timeout = 15 s)
+        # runs while connections of several keys are idle
+        ktick = st.fixed_dictionaries({"op": st.just("tick"), "dt": st.sampled_from([1.0, 4.0, 5.0, 10.0, 14.0, 15.0])})
+        ops = draw(st.lists(st.one_of(kreq, kreq, ktick), min_size=2, max_size=8))
+        return {"ops": [dict(o, peer=dict(o["peer"])) if o["op"] == "req" else o for o in ops], "s2c": []}
     ops = draw(st.lists(st.one_of(req, req, req, uns, tick), min_size=2, max_size=8))
     for o in ops:
         if o["op"] == "req":
@@ -486,7 +489,7 @@ def units(tier: str, seed: int) -> list[Unit]:
     n = 400 if tier == "quick" else 6000
     us = [Unit(f"narrow{i}", unit_hyp, {"n": n, "offset": i, "narrow": True}) for i in range(10)]
     us += [Unit(f"lattice{i}", unit_hyp, {"n": n, "offset": 30 + i, "narrow": False}) for i in range(6)]
-    us += [Unit(f"keys{i}", unit_hyp, {"n": n, "offset": 60 + i, "narrow": "keys"}) for i in range(2)]
+    us += [Unit(f"keys{i}", unit_hyp, {"n": n, "offset": 60 + i, "narrow": "keys"}) for i in range(5)]
     return us
 
 
